@@ -881,7 +881,15 @@ PTRef ArithLogic::mkConst(SRef s, char const * name) {
             stringToRational(rat, name);
         else {
             if (not isIntString(name)) throw ApiException("Not parseable as an integer");
-            rat = strdup(name);
+            // Canonical text (no leading zeros, no negative zero), so that equal numbers are the same constant
+            bool const isNegative = (name[0] == '-');
+            char const * digits = isNegative ? name + 1 : name;
+            while (digits[0] == '0' and digits[1] != '\0') { ++digits; }
+            bool const isZero = (digits[0] == '0');
+            rat = static_cast<char *>(malloc(strlen(digits) + 2));
+            rat[0] = '\0';
+            if (isNegative and not isZero) { strcat(rat, "-"); }
+            strcat(rat, digits);
         }
         ptr = mkVar(s, rat, true);
         // Store the value of the number as a real
